@@ -145,6 +145,7 @@ type ME struct {
 	Eps  []int `json:"eps"`                  // indices into EPNames (distinct)
 	RMs  int   `json:"recoveryMs,omitempty"` // recovery timeout (applies when the MultiEndpoint is created)
 	DMs  int   `json:"delayMs,omitempty"`    // switching delay (applies when the MultiEndpoint is created)
+	Dup  int   `json:"dup,omitempty"`        // >0: the endpoint at this position (1-based, mod len) is listed a second time at the end
 }
 
 // Options is a generated option set.
@@ -206,6 +207,8 @@ type world struct {
 	m0          int
 	delayed     map[string]bool // MultiEndpoints created with a recovery timeout or switching delay follow with a delay
 	callerOpts  *grpcgcp.GCPMultiEndpointOptions
+	pendingDups map[string]bool // of the option set built last
+	dups        map[string]bool // of the accepted option set
 }
 
 type failure struct{ f *Fail }
@@ -322,6 +325,14 @@ func (w *world) open(e string) int {
 func (w *world) checkRoute(ctxName, got string) string {
 	list := w.mes[w.meFor(ctxName)]
 	want := topUp(list, w.up)
+	if w.dups[w.meFor(ctxName)] && want != "" {
+		for _, e := range list {
+			if e == got && w.up[e] {
+				return ""
+			}
+		}
+		return fmt.Sprintf("context %q entered pool %q, which is not a reachable endpoint of MultiEndpoint %q %v (up: %v)", ctxName, got, w.meFor(ctxName), list, w.upList())
+	}
 	if want == "" {
 		for _, e := range list {
 			if e == got {
@@ -481,6 +492,8 @@ func (o *Options) buildFor(w *world, inPlace bool) (*grpcgcp.GCPMultiEndpointOpt
 func (o *Options) build(w *world) (*grpcgcp.GCPMultiEndpointOptions, map[string][]string, string) {
 	mes := map[string]*multiendpoint.MultiEndpointOptions{}
 	model := map[string][]string{}
+	dups := map[string]bool{}
+	w.pendingDups = dups
 	for _, me := range o.MEs {
 		name := MENames[((me.Name%len(MENames))+len(MENames))%len(MENames)]
 		if _, dup := mes[name]; dup {
@@ -498,7 +511,14 @@ func (o *Options) build(w *world) (*grpcgcp.GCPMultiEndpointOptions, map[string]
 		if len(l) == 0 {
 			l = []string{EPNames[0]}
 		}
-		mes[name] = &multiendpoint.MultiEndpointOptions{Endpoints: append([]string{}, l...), RecoveryTimeout: time.Duration(me.RMs) * time.Millisecond, SwitchingDelay: time.Duration(me.DMs) * time.Millisecond}
+		given := append([]string{}, l...)
+		if me.Dup > 0 {
+			// a list naming an endpoint twice is accepted by the library (the priority of the duplicate is not
+			// defined by the statement): the model only demands an up member then
+			given = append(given, l[(me.Dup-1)%len(l)])
+			dups[name] = true
+		}
+		mes[name] = &multiendpoint.MultiEndpointOptions{Endpoints: given, RecoveryTimeout: time.Duration(me.RMs) * time.Millisecond, SwitchingDelay: time.Duration(me.DMs) * time.Millisecond}
 		model[name] = l
 	}
 	if len(mes) == 0 {
@@ -676,6 +696,7 @@ func Run(c *Case, props map[string]bool) (res Result) {
 	}
 	w.gme, w.client = gme, hw.NewGreeterClient(gme)
 	w.mes, w.def = model, def
+	w.dups = w.pendingDups
 	w.noteTimers(o)
 	w.settle("create", "C15")
 	w.checkPools("create")
@@ -739,6 +760,7 @@ func Run(c *Case, props map[string]bool) (res Result) {
 				w.fail("C15", "update-rejected", "valid update rejected: %v", err)
 			}
 			w.mes, w.def = model, def
+			w.dups = w.pendingDups
 			w.noteTimers(o)
 			// kept pools were not re-dialed
 			for e := range keptOpen {
@@ -755,7 +777,7 @@ func Run(c *Case, props map[string]bool) (res Result) {
 			// MultiEndpoints whose top up endpoint's pool was kept route correctly at once
 			for n, l := range model {
 				t := topUp(l, w.up)
-				if t == "" || w.delayed[n] || !keptOpen[t] || !readyBefore[t] || w.dialed[t][len(w.dialed[t])-1].GetState() != connectivity.Ready {
+				if t == "" || w.delayed[n] || w.dups[n] || !keptOpen[t] || !readyBefore[t] || w.dialed[t][len(w.dialed[t])-1].GetState() != connectivity.Ready {
 					continue
 				}
 				got, p := w.route(n, true, false)
